@@ -296,7 +296,11 @@ func c05Gen(t *rapid.T) c05Case {
 		L := drawLen(t, 1, 12, "L")
 		off := rapid.IntRange(0, 11).Draw(t, "off")
 		for i := 0; i < L; i++ {
-			bs = append(bs, strandAlphabet[(off+i)%12])
+			if i < 12 {
+				bs = append(bs, strandAlphabet[(off+i)%12])
+			} else {
+				bs = append(bs, strandAlphabet[splitmix(uint64(off)*7919+uint64(i))%12]) // aperiodic beyond the alphabet
+			}
 		}
 	} else {
 		bs = rapid.SliceOfN(rapid.SampledFrom(iupacBytes), 1, 14).Draw(t, "bytes")
